@@ -592,7 +592,9 @@ class Visitor:
 
                 existing_member = parent.members[name]
                 with suppress(AliasResolutionError, CyclicAliasError):
-                    labels |= existing_member.labels
+                    # Forward the labels of a previous assignment, not the ones a previous
+                    # function or property got from its decorators or its definition.
+                    labels |= existing_member.labels & {"module-attribute", "class-attribute", "instance-attribute"}
                     # Forward previous docstring and annotation instead of erasing them.
                     if existing_member.docstring and not docstring:
                         docstring = existing_member.docstring
